@@ -2,6 +2,7 @@ import TD.C06.Lemmas
 import TD.C06.LemmasPlan
 import TD.C06.LemmasLoad
 import TD.C06.LemmasMulti
+import TD.C06.LemmasReads
 
 /-!
 # C06 — LIS log pass frame sets are exact; any sub-selection is a sub-matrix
@@ -570,5 +571,61 @@ example : ∃ ops, (setFrameSet ⟨dfsrD, ⟨0, dfsrD.chans.map Chan.size⟩, 0,
   (setFrameSet_values_allchannels_partial dfsrD 2 lpD.rle storeD none (some ⟨1, 5, 2⟩) rfl rfl
     (by intro c hc; simp [dfsrD] at hc; rcases hc with rfl | rfl | rfl <;> decide)
     (by unfold IncTells; decide) (by decide) (by decide) (by decide)).imp (fun _ h => h.1)
+
+/-! ## Every file operation of a load lies inside a data record that holds a requested frame
+
+General: any DFSR (direct or indirect X), any record table, any slice, any channel list. Whenever `setFrameSet`
+succeeds, every seek goes to the position of a record in which `RLEType01.tellLrForFrame` locates a requested frame,
+and every read is a read of that record at `[ofs, ofs+len)` with `ofs + len ≤` the record's length (header included);
+skips do not touch the file. (Physical extents of the records are C05's subject; the oracle of `./check C06` checks the
+physical reads of the implementation against the generator's extents.) -/
+
+/-- the record at position `t` holds a frame requested by the slice `sl` -/
+def SelectedRecord (lp : LogPass) (sl : Option Sl) (t : Nat) : Prop :=
+  ∃ f ∈ rangeList (slOrAll sl (rle01Total lp.rle)).start (slOrAll sl (rle01Total lp.rle)).stop (slOrAll sl (rle01Total lp.rle)).step1,
+    ∃ seek off, rle01Tell lp.rle f = .ok (seek, off) ∧ seek.toNat = t
+
+theorem reads_inside_selected_records (lp : LogPass) (st : Store) (sl : Option Sl) (ch : Option (List Nat)) (ops : List Op)
+    (h : (setFrameSet lp st sl ch).2 = .ok ops) : ∀ op ∈ ops, OpOk st (SelectedRecord lp sl) op := by
+  unfold setFrameSet at h
+  simp only at h
+  split at h
+  · cases h
+  · split at h
+    · cases h
+    · rename_i fs hfs
+      split at h
+      · cases h; simp
+      · split at h
+        · cases h
+        · rename_i evs hevs
+          split at h
+          · cases h
+          · rename_i r hex
+            cases h
+            unfold genFrameSetEvents at hevs
+            split at hevs
+            · cases hevs
+            · rename_i m hm
+              have hseek : ∀ e ∈ evs, e.ty = .seekLr → SelectedRecord lp sl e.siz := by
+                intro e he hty
+                obtain ⟨en, hen, hs⟩ := genFrameSetEventsAux_seeks _ _ _ _ _ hevs e he hty
+                unfold retFrameSetMap at hm
+                split at hm
+                · cases hm
+                · rename_i m0 hm0
+                  cases hm
+                  have := retFrameSetMapAux_keys _ _ _ _ hm0 en (sortByKey_mem _ _ hen)
+                  rcases this with ⟨e', he', _⟩ | ⟨f, hf, off, ht⟩
+                  · simp at he'
+                  · exact ⟨f, hf, en.1, off, ht, hs.symm⟩
+              have hok := execEvs_ok lp.dfsr st (SelectedRecord lp sl) evs _ r hseek
+                ⟨by simp, by intro t bs h; simp at h⟩ hex
+              intro op hop
+              exact hok.1 op (by simpa using hop)
+
+example : ∀ op ∈ [Op.seek 50, .read 50 0 2, .skip 10, .read 50 12 4, .skip 4, .read 50 20 2, .seek 90, .read 90 0 2,
+    .read 90 2 4, .skip 4, .read 90 10 2], OpOk storeD (SelectedRecord lpD (some ⟨1, 5, 2⟩)) op :=
+  reads_inside_selected_records lpD storeD (some ⟨1, 5, 2⟩) (some [2]) _ setFrameSet_values_witness.2.2.2
 
 end TD.C06
